@@ -5,6 +5,7 @@ import json
 
 import core
 import treeops as T
+import treetable
 
 
 def corpus(name):
@@ -15,6 +16,7 @@ def corpus(name):
 
 
 def run(ctx: core.Run):
+    treetable.regenerate(ctx)
     ctx.prove(["PsdVerif.Props.C10"])
     ctx.trusted_base += T.TRUSTED
     ctx.assumptions += T.ASSUME
@@ -48,6 +50,7 @@ def run(ctx: core.Run):
         traces.append(T.run_history(recipe, ops))
     # correspondence with the model after every operation
     T.compare_with_model(ctx, traces, what="C10")
+    treetable.correspond(ctx, traces, "C10")
     T.coverage(ctx, traces)
     T.report(ctx, traces, props=("C10",))
     for t in traces[:n_corpus] + traces[-3:]:
@@ -59,7 +62,7 @@ def run(ctx: core.Run):
                 "mode x depth matrix, two-document worlds, fixtures), 12%% of the inserted arguments unguarded "
                 "(already listed, non-layers, documents)." % (depth, n_walks, max_len, len(recipes)))
     ctx.exhaustive = False
-    ctx.notes += NOTES
+    ctx.notes += NOTES + treetable.NOTES
     if ctx.tier == "thorough":
         ctx.recheck(["PsdVerif.Props.C10"])
 
